@@ -593,7 +593,11 @@ def c10_cases(tier, seed):
            Case("<e xmlns='a&#10;b' xmlns:n='c&#10;&#10;d' n:x='1'><n:f/></e>", "ncptadlog", True, meta={"gen": "lf-in-uri"})]
     cs += gens.g_long_nonascii(flags="ncptalg", totals=(127, 128, 255, 256, 511, 512, 513))
     # (text_pos_at for every offset is quadratic: larger sizes without the position sweep)
-    cs += gens.g_long_nonascii(flags="ncpalg", totals=(1024, 4096) if q else (1024, 4096, 65535, 65536))
+    cs += gens.g_long_nonascii(flags="ncpalg", totals=(1024, 4096))
+    if not q:
+        # the largest sizes without the lookup / Debug batteries (quadratic in the model's driver: a shard of 65 536-character
+        # documents did not finish within the driver's 20-minute limit)
+        cs += gens.g_long_nonascii(flags="ncp", totals=(65535, 65536))
     # the documented saturation limits of the attribute position fields, with non-ASCII names
     cs += [c for c in gens.g_long_nonascii(flags="pa", totals=(65535, 65536)) if c.meta["where"] in ("attr-name", "tag-name")]
     return cs
